@@ -26,6 +26,22 @@ def get_modules(paths: list[str]) -> Generator[ModuleType, None, None]:
     extra_modules = (importlib.import_module(x) for x in paths + plugins)
 
     loaded: set[ModuleType] = set()
+    loaded_files: set[str] = set()
+
+    def is_new(module: ModuleType) -> bool:
+        # The same file can be imported under several names (`pkg.mod` and, with a
+        # different `sys.path` entry, `mod`), which gives distinct module objects.
+        file = getattr(module, "__file__", None)
+
+        if module in loaded or (file and file in loaded_files):
+            return False
+
+        loaded.add(module)
+
+        if file:
+            loaded_files.add(file)
+
+        return True
 
     for pkg in (checks_module, *extra_modules):
         if pkg in loaded:
@@ -34,8 +50,7 @@ def get_modules(paths: list[str]) -> Generator[ModuleType, None, None]:
         if not hasattr(pkg, "__path__"):
             module = importlib.import_module(pkg.__name__)
 
-            if module not in loaded:
-                loaded.add(module)
+            if is_new(module):
                 yield module
 
             continue
@@ -46,8 +61,7 @@ def get_modules(paths: list[str]) -> Generator[ModuleType, None, None]:
 
             module = importlib.import_module(info.name)
 
-            if module not in loaded:
-                loaded.add(module)
+            if is_new(module):
                 yield module
 
         loaded.add(pkg)
